@@ -220,7 +220,16 @@ def run(ctx):
             ctx.ob("C10.G.error-spanned", f.key, "flatten", e.startswith("darling_core::error::Error::with_span(") and "Flag::span(" in e, e[:160])
     f = ctx.fn(vb % "from_meta::FromMetaOptions")
     if f:
-        pushes = [(blk, ctx.expr(f, t["args"][1]), ctx.pc_strs(f, blk)) for blk, t in ctx.find_calls(f, r"Accumulator::push$")]
+        # one entry per (push, error value): a push whose message was chosen by an earlier test
+        # counts once per message, under the conditions of that choice
+        from vlib import resalg
+        pushes = []
+        for blk, t in ctx.find_calls(f, r"Accumulator::push$"):
+            byval = {}
+            for conds, val in resalg.site_cases(ctx, f, blk, t["args"][1]):
+                byval.setdefault(val, []).append(set(conds))
+            for val, ds in byval.items():
+                pushes.append((blk, val, ds))
 
         def has(*rx):
             return [p for p in pushes if p[2] and all(all(ctx._sat(d, r) for r in rx) for d in p[2])]
@@ -233,15 +242,35 @@ def run(ctx):
         # the word rules count every variant that carries a `word` annotation
         fms = ctx.find_calls(f, r"Iterator>::filter_map|Iterator::filter_map")
         okw = len(fms) == 1 and re.match(r"^core::slice::<impl \[T\]>::iter\(\(self\.base\.data as Enum\)\.0\)$", ctx.expr(f, fms[0][1]["args"][0])) is not None
-        cl_ = [c for c in ctx.closures_of(f) if [(e_, ctx.pc_strs(c, b_)) for b_, e_ in ctx.ret_exprs(c)] == [("a2.word", [set()])]]
-        ctx.ob("C10.G.word-rules-over-all-variants", f.key, "word_variants = data.iter().filter_map(|v| v.word.as_ref())", okw and len(cl_) == 1,
+        cl_ = [c for c in ctx.closures_of(f) if [(e_, ctx.pc_strs(c, b_, own=True)) for b_, e_ in ctx.ret_exprs(c)] == [("a2.word", [set()])]]
+        # the same collection written as a loop: one push per variant, selected by the presence of
+        # the annotation and by nothing else about it
+        lp = [h for h in ctx.per_element(f, r"Vec::<.*>::push$") if h["form"] == "loop" and re.search(r"\(self\.base\.data as Enum\)\.0\)*$", h["source"])]
+        okl = False
+        if not fms and len(lp) == 1:
+            ds = ctx.pc_strs(f, lp[0]["blk"])
+            val = ctx.expr(f, lp[0]["t"]["args"][1])
+            okl = bool(ds) and re.search(r"\.word as Some\)\.0$|\.word$", val) is not None
+            for d in ds:
+                about = [a_ for a_ in d if ".word" in a_]
+                okl = okl and len(about) == 1 and re.search(r"^is_some\(.*\.word\)=True$", about[0]) is not None
+        ctx.ob("C10.G.word-rules-over-all-variants", f.key, "word_variants = data.iter().filter_map(|v| v.word.as_ref())", (okw and len(cl_) == 1) or okl,
                "the `word` rules must see every variant that carries the annotation: source %s, selecting closures %d" % ([ctx.expr(f, t_["args"][0])[:120] for _, t_ in fms], len(cl_)))
         base = ctx.find_calls(f, "^" + re.escape(vb % "core::Core") + "$")
         ctx.ob("C10.P.body-rules-chain", f.key, "base.validate_body(errors)", len(base) == 1 and on_every_path(f, base[0][0]), "the single-flatten rule must run for FromMeta receivers too, on every path")
     f = ctx.fn(vb % "outer_from::OuterFrom")
     if f:
-        pushes = [(blk, ctx.expr(f, t["args"][1]), ctx.pc_strs(f, blk)) for blk, t in ctx.find_calls(f, r"Accumulator::push$")]
-        ok = len(pushes) == 1 and all(ctx._sat(d, r"is_some\(self\.attrs\)=True") and ctx._sat(d, r"is_some\(self\.forward_attrs\)=False") for d in pushes[0][2])
+        # one entry per (push, error value): a push whose message was chosen by an earlier test
+        # counts once per message, under the conditions of that choice
+        from vlib import resalg
+        pushes = []
+        for blk, t in ctx.find_calls(f, r"Accumulator::push$"):
+            byval = {}
+            for conds, val in resalg.site_cases(ctx, f, blk, t["args"][1]):
+                byval.setdefault(val, []).append(set(conds))
+            for val, ds in byval.items():
+                pushes.append((blk, val, ds))
+        ok = len({p[0] for p in pushes}) == 1 and all(ctx._sat(d, r"is_some\(self\.attrs\)=True") and ctx._sat(d, r"is_some\(self\.forward_attrs\)=False") for p in pushes for d in p[2])
         ctx.ob("C10.G.attrs-needs-forward-attrs", f.key, "`attrs` field without forward_attrs", ok, "guarded error")
         for blk, e, pc in pushes:
             ctx.ob("C10.G.error-spanned", f.key, "attrs", e.startswith("darling_core::error::Error::with_span(") and "attrs as Some).0.ident" in e, e[:160])
